@@ -220,7 +220,18 @@ func (p *Proof) SetExpected(pk *gabikeys.PublicKey, challenge, response *big.Int
 	if !proofstructure.verifyProofStructure((*proof)(p)) {
 		return errors.New("malformed nonrevocation proof")
 	}
+	if !isGroupElement(p.Cr, pk.N) || !isGroupElement(p.Cu, pk.N) {
+		return errors.New("nonrevocation proof commitment is not a group element")
+	}
 	return nil
+}
+
+// isGroupElement reports whether x is positive and invertible modulo n. Commitments that are not
+// (0, or a multiple of n) make every reconstructed Schnorr commitment collapse to 0 independently of
+// the responses, so that a "proof" could be made without knowing any witness. (x is not required to
+// be reduced modulo n: ProofCommit.Update produces an unreduced C_u.)
+func isGroupElement(x, n *big.Int) bool {
+	return x.Sign() > 0 && new(big.Int).GCD(nil, nil, x, n).Cmp(bigOne) == 0
 }
 
 func (p *Proof) ChallengeContributions(key *gabikeys.PublicKey) []*big.Int {
@@ -230,6 +241,9 @@ func (p *Proof) ChallengeContributions(key *gabikeys.PublicKey) []*big.Int {
 
 func (p *Proof) VerifyWithChallenge(pk *gabikeys.PublicKey, reconstructedChallenge *big.Int) bool {
 	if p.SignedAccumulator == nil || !proofstructure.verifyProofStructure((*proof)(p)) {
+		return false
+	}
+	if !isGroupElement(p.Cr, pk.N) || !isGroupElement(p.Cu, pk.N) {
 		return false
 	}
 	if (*proof)(p).ProofResult("alpha").Cmp(Parameters.bTwoZk) > 0 {
